@@ -193,17 +193,18 @@ decreasing_by
 
 /-! ## The regex fragment the key matchers emit
 
-`re.match("^" + key2 + r"\Z", key1)` for `key2` a sequence of quantified one-character atoms, optionally inside a
+`re.match("(?s)^" + key2 + r"\Z", key1)` for `key2` a sequence of quantified one-character atoms, optionally inside a
 capturing group: literal, `.`, `[^/]`, `[^\/]` with quantifier none / `*` / `+` / `+?`.  Backtracking order is
 CPython's (greedy: longest first, lazy: shortest first), so the captures of the *first* successful match are returned.
-`.` does not match a line feed (no flags are passed by the code); the pattern is anchored by `^` … `\Z`. -/
+`.` matches every character, the line feed included (the code prefixes the inline flag `(?s)` = `re.DOTALL`, after
+`fix: … let '*' match line feeds`); the pattern is anchored by `^` … `\Z`. -/
 
 inductive Atom | chr (c : Char) | dot | notSlash
   deriving DecidableEq, Repr
 
 def Atom.ok : Atom → Char → Bool
   | .chr c, x => x == c
-  | .dot, x => x != '\n'
+  | .dot, _ => true
   | .notSlash, x => x != '/'
 
 inductive Quant | one | star | plus | plusLazy
@@ -353,14 +354,14 @@ def parseRe : Nat → Str → Out (List Node)
     | .outside => .outside
     | .ok n rest => (parseRe fuel rest).map (fun ns => n :: ns)
 
-/-- `re.match("^" + body + r"\Z", key)`: `ok none` = no match, `ok (some groups)` -/
+/-- `re.match("(?s)^" + body + r"\Z", key)`: `ok none` = no match, `ok (some groups)` -/
 def reMatchBody (body key : Str) : Out (Option (List Str)) :=
   (parseRe (body.length + 1) body).map (fun ns => matchNodes ns key)
 
-/-- `re.match(re, key)` for a full regex string: must be `^…\Z` -/
+/-- `re.match(re, key)` for a full regex string: must be `(?s)^…\Z` -/
 def reMatchFull (re key : Str) : Out (Option (List Str)) :=
   match re with
-  | '^' :: r =>
+  | '(' :: '?' :: 's' :: ')' :: '^' :: r =>
     (match r.reverse with
      | 'Z' :: '\\' :: br => reMatchBody br.reverse key
      | _ => .outside)
